@@ -1197,6 +1197,7 @@ class Proto:
         if name in ('std::panicking::begin_panic', 'core::panicking::panic', 'core::panicking::panic_fmt'):
             if record:
                 self.events[('panic', self._evn(fn), '')].add(st.pan)
+                self.events[('panic_T', self._evn(fn), '')].add((st.T, st.P, bb in self._debug_only(fn) or 'assert' in (t['sp'].get('mac') or '')))
             return []
 
         # helpers working on the locked core: inlined
